@@ -20,6 +20,7 @@
 import YashModel.Common.Proto
 import YashModel.Args.Model
 import YashModel.Args.Spec
+import YashModel.Args.Canon
 import YashModel.Args.Getopts
 import YashModel.Args.GetoptsHistory
 import YashModel.Args.Bespoke
@@ -109,7 +110,20 @@ def splitBar (ts : List String) : List (List String) :=
 def specVerdict (specs : List OptionSpec) (mode : Mode) (args : List Str) (r : Parsed) : Option String :=
   let v := r.view
   let s := Spec.parse specs mode args
-  if showView v = showView s then none else some s!"FAIL:spec-predicts {showView s}"
+  if showView v ≠ showView s then some s!"FAIL:spec-predicts {showView s}"
+  else if mode.optionArgumentsInSameField then
+    -- the canonical spelling (Canon.lean) must parse alike, and be read by the simple reader when accepted
+    let c := Spec.canon specs args
+    let vc := (parseArguments specs mode c).view
+    if showView vc ≠ showView v then some s!"FAIL:canonical-spelling-gives {showView vc}"
+    else match v with
+      | .ok _ =>
+        if specs.all (fun s => s.short != some '-' && (match s.long with | some l => !l.isEmpty && !l.contains '=' | none => true))
+            && showView (Spec.readCanon specs mode c) ≠ showView v then
+          some s!"FAIL:simple-reader-gives {showView (Spec.readCanon specs mode c)}"
+        else none
+      | .error _ => none
+  else none
 
 /-! getopts leg -/
 
